@@ -69,16 +69,22 @@ def run_monitored(argv, env, outp, errp, cpu_s=600, wall_s=900, detect_deadlock=
         elif detect_deadlock:
             ts = thread_states(p.pid)
             if ts:
-                blocked = all(s == "S" and sc == "202" for (_, s, sc, _, _) in ts)
-                snap = tuple(sorted((t, cs, cpu) for (t, _, _, cs, cpu) in ts))
-                if blocked and snap == prev:
+                # every thread asleep; those in futex (202) with frozen context-switch counters; at most one other thread (a sanitizer
+                # runtime's background thread sleeping in nanosleep) and no CPU consumed by the whole process
+                infutex = [x for x in ts if x[2] == "202"]
+                others = [x for x in ts if x[2] != "202"]
+                asleep = all(s_ == "S" for (_, s_, _, _, _) in ts)
+                ok_others = len(others) == 0 or (len(others) == 1 and len(ts) >= 3 and others[0][2] in ("35", "230"))
+                snap = (tuple(sorted((t, cs) for (t, _, _, cs, _) in infutex)), sum(cpu for (_, _, _, _, cpu) in ts) // 2)
+                if asleep and ok_others and infutex and snap == prev:
                     same += 1
                 else:
                     same = 0
                 prev = snap
-                if same >= 6:   # every thread blocked in futex, no context switch and no CPU for > 1 s: nothing can ever run again
+                need = 6 if not others else 25   # > 1 s, or > 5 s when a runtime helper thread is around
+                if same >= need:   # nothing can ever run again: a lost wake-up / lock cycle, independent of machine load
                     status = "deadlock"
-                    info = "threads=%d all in futex wait" % len(ts)
+                    info = "threads=%d all in futex wait" % len(infutex)
                     try:
                         g = subprocess.run(["gdb", "-p", str(p.pid), "-batch", "-ex", "thread apply all bt 7"], capture_output=True, text=True, timeout=30)
                         frames = [l for l in g.stdout.split("\n") if l.startswith("#") or l.startswith("Thread")]
@@ -134,9 +140,9 @@ class PoolRun(DictRun):
         env = dict(os.environ)
         env["TSAN_OPTIONS"] = "halt_on_error=0:exitcode=0:report_signal_unsafe=0:history_size=4:second_deadlock_stack=1"
         env["LC_ALL"] = "C"
-        rc, status, info = run_monitored(argv, env, outp, errp, cpu_s=1200, wall_s=1500, detect_deadlock=(case.flavor == "plain"))
+        rc, status, info = run_monitored(argv, env, outp, errp, cpu_s=1200, wall_s=1500, detect_deadlock=True)
         if status == "wall":   # wall clock never decides: once more
-            rc, status, info = run_monitored(argv, env, outp, errp, cpu_s=1200, wall_s=1500, detect_deadlock=(case.flavor == "plain"))
+            rc, status, info = run_monitored(argv, env, outp, errp, cpu_s=1200, wall_s=1500, detect_deadlock=True)
         out = parse_out(outp)
         last_l = ""
         orders = []
